@@ -24,7 +24,10 @@ def run(tier, v, wd, replay=None):
                 out.writelines(f.readlines())
             os.remove(part)
     repo = vlib.scratch_repo(wd, "real")
-    run_vectors(v, wd, repo, "./control/", "TestVerifC03", beh, tags="verif", timeout=600 if tier == "quick" else 3000)
+    res3 = run_vectors(v, wd, repo, "./control/", "TestVerifC03", beh, tags="verif", timeout=600 if tier == "quick" else 3000)
+    c3 = res3.get("counters") or {}
+    if c3.get("c03_l3_redirects", 0) == 0 or c3.get("c03_l3_passes", 0) == 0:
+        raise vlib.Infra("the L3 link-type runs never reached a redirect / pass verdict (the frames were not recognised as IP by the L3 programs): %s" % c3)
     # frame shapes: options, extension headers, fragments, foreign protocols, truncation; both header parsers (FrameShape.tla)
     ffile = os.path.join(wd.path, "c03frames.ndjson")
     r = vlib.tlc(wd, "FrameShape", "FrameShape_mc.cfg", emit_to=ffile, timeout=600)
@@ -32,7 +35,7 @@ def run(tier, v, wd, replay=None):
     if r.violated:
         raise vlib.Infra("FrameShape.tla: %s violated" % r.violated)
     run_vectors(v, wd, repo, "./control/", "TestVerifC03Frames", ffile, tags="verif", timeout=1500, outname="out-frames.json")
-    v.assumptions += ["the real tc programs (tproxy_lan_ingress_l2, tproxy_wan_egress_l2, tproxy_wan_ingress_l2) run in the kernel through BPF_PROG_TEST_RUN on crafted Ethernet frames (IPv4 / IPv6, with and without a hop-by-hop header, short and >=128 byte frames); real maps; rules installed through the production builder",
+    v.assumptions += ["the real tc programs (tproxy_lan_ingress_l2/_l3, tproxy_wan_egress_l2/_l3, tproxy_wan_ingress_l2/_l3) run in the kernel through BPF_PROG_TEST_RUN on crafted Ethernet frames (IPv4 / IPv6, with and without a hop-by-hop header, short and >=128 byte frames); real maps; rules installed through the production builder",
                       "Tick(d) ages last_seen_ns of the flow's map entries; process identity through cookie_pid_map entries around the test-run socket cookie (a missed window yields no verdict)",
                       "frame shapes (IPv4 options, IPv6 extension chains, first / later fragments, ICMP and unknown protocols, frames cut inside the IP header / extension chain / transport header) are run on fresh flows through both parsers and compared with each other and with the plain frame of the same kind",
                       "L3 (no Ethernet header) link types, the local-socket lookup and a full conn_state_map are not driven"]
